@@ -91,7 +91,7 @@ func (s Stream[T]) consumeConcurrently(ctx context.Context, concurrency int, f f
 			if workerCtx.Err() != nil {
 				return
 			}
-			v, err := s.provider(workerCtx)
+			v, err := pullRecovering(workerCtx, s.provider)
 			if err != nil {
 				if err == io.EOF {
 					return
@@ -132,7 +132,9 @@ func (s Stream[T]) consumeConcurrently(ctx context.Context, concurrency int, f f
 						setErr(item.Err)
 						return
 					}
-					if err := f(workerCtx, item.Value); err != nil {
+					if _, err := callRecovering(workerCtx, func(ctx context.Context, v T) (struct{}, error) {
+						return struct{}{}, f(ctx, v)
+					}, item.Value); err != nil {
 						setErr(err)
 						return
 					}
